@@ -38,8 +38,9 @@ from ufl.algorithms.apply_integral_scaling import apply_integral_scaling, comput
 from ufl.algorithms.compute_form_data import attach_estimated_degrees, compute_form_data, preprocess_form
 from ufl.algorithms.formdata import FormData
 from ufl.core.multiindex import Index
-from ufl.pullback import contravariant_piola, covariant_piola, identity_pullback, l2_piola
-from ufl.sobolevspace import H1, HCurl, HDiv, L2
+from ufl.pullback import (contravariant_piola, covariant_piola, covariant_contravariant_piola, double_contravariant_piola, double_covariant_piola,
+                          identity_pullback, l2_piola)
+from ufl.sobolevspace import H1, HCurl, HDiv, HDivDiv, HEin, L2
 
 from ufv import elements as E
 from ufv import num as N
@@ -79,7 +80,8 @@ def kind_of(element):
     pb = element.pullback
     n = type(pb).__name__
     return {"IdentityPullback": "identity", "ContravariantPiola": "contra", "CovariantPiola": "cov", "L2Piola": "l2", "MixedPullback": "mixed",
-            "SymmetricPullback": "symmetric"}.get(n, n)
+            "SymmetricPullback": "symmetric", "DoubleContravariantPiola": "dcontra", "DoubleCovariantPiola": "dcov",
+            "CovariantContravariantPiola": "covcontra"}.get(n, n)
 
 
 def size(shape):
@@ -172,6 +174,24 @@ class Unified:
                 r = R(flat(lead + (j,), rshape))
                 tot = N.add(tot, N.mul(self.Jb(w, i, j) if k == "contra" else self.Kb(w, j, i), r))
             return N.div(tot, self.detJb(w)) if k == "contra" else tot
+        if k in ("dcontra", "dcov", "covcontra"):
+            lead, i, j = comp[:-2], comp[-2], comp[-1]
+            tot = 0
+            for m_ in range(t):
+                for n_ in range(t):
+                    r = R(flat(lead + (m_, n_), rshape))
+                    if k == "dcontra":
+                        tot = N.add(tot, N.mul(N.mul(self.Jb(w, i, m_), r), self.Jb(w, j, n_)))
+                    elif k == "dcov":
+                        tot = N.add(tot, N.mul(N.mul(self.Kb(w, m_, i), r), self.Kb(w, n_, j)))
+                    else:
+                        tot = N.add(tot, N.mul(N.mul(self.Kb(w, m_, i), r), self.Jb(w, j, n_)))
+            if k == "dcontra":
+                d_ = self.detJb(w)
+                return N.div(tot, N.mul(d_, d_))
+            if k == "covcontra":
+                return N.div(tot, self.detJb(w))
+            return tot
         if k == "mixed":
             (pc,) = comp
             ro = po = 0
@@ -283,6 +303,11 @@ def corpus(cellname, gdim):
             F["covariant Piola mass"] = (lambda cf, un, tn: inner(un, tn) * dx + dot(cf, tn) * dot(cf, un) * dx(2))(Coefficient(Nc), TrialFunction(Nc), TestFunction(Nc))
             L2s = FunctionSpace(m, EL("DG L2", 0, (), l2_piola, L2))
             F["L2 Piola"] = TrialFunction(L2s) * TestFunction(L2s) * dx
+            if t == 2:
+                CC = FunctionSpace(m, EL("covcontra", 1, (t, t), covariant_contravariant_piola, L2))
+                DC = FunctionSpace(m, EL("Regge", 1, (t, t), double_covariant_piola, HEin))
+                DD = FunctionSpace(m, EL("HHJ", 1, (t, t), double_contravariant_piola, HDivDiv))
+                F["tensor Piola kinds"] = (inner(Coefficient(CC), A) * v + inner(Coefficient(DC), grad(ww)) * v) * dx + inner(Coefficient(DD), A) * v * dx(1)
         if t >= 2:
             F["interior facets"] = jump(du) * jump(dv) * dS + dot(avg(grad(du)), n("+")) * jump(dv) * dS(1) + du * dv * dx
     if t == 2 and gdim == 2:
